@@ -185,6 +185,8 @@ InferOpt(t, ign, ts) ==
                                      IF nm \in DOMAIN props THEN props[nm] ELSE (CHOOSE p \in oprops : p[1] = nm)[2]]
                       IN IOk([type |-> "object", additionalProperties |-> [not |-> EmptyFcn], properties |-> allp]
                              @@ (IF req = <<>> THEN <<>> ELSE [required |-> [i \in DOMAIN req |-> plain[req[i]].name]]))
+    \* an entry for a standard-library type replaces its built-in translation
+    [] t.k = "std" -> IF ("std:" \o t.w) \in DOMAIN ts THEN IOk(ts["std:" \o t.w]) ELSE IOk(InferSpec(t))
     [] OTHER -> IOk(InferSpec(t))
 
 \* the part of an inferred schema that matters to the evaluator
